@@ -37,3 +37,43 @@ def contract():
         min_paths=4,
         trusted=["is_lazy is a pure predicate of the object", "TypeParser.check_type is the static check (its relation to run-time coercion is the bounded part of C21)"],
     )
+
+
+def contract_c20():
+    """C20 on the same function: a plain value (not attrs.NOTHING, not a lazy field, not a StateArray) is accepted only as the
+    value `self.coerce(obj)` RETURNED -- on every path; when `self.coerce` raises, the call raises (the value is rejected at
+    assignment, never stored un-coerced), and for a TypeError of coerce the exception that leaves is a TypeError."""
+    from pyvc.engine import eq, z3_and
+
+    def stored_value_is_the_coerced_value(E, st, out):
+        co = [e for e in st.trace if e.name == "self.coerce"]
+        if co:
+            if co[-1].raised:
+                return False  # coerce raised and the call still returned a value
+            return eq(out.val, co[-1].ret)
+        # no coercion on this path: only for the three kinds of value the property does not speak about
+        return E.eval_spec("obj is attrs.NOTHING or is_lazy(obj) or isinstance(obj, StateArray)", st, {})
+
+    def exactly_one_coercion(E, st, out):
+        co = [e for e in st.trace if e.name == "self.coerce"]
+        return len(co) <= 1 and all(e.args and eq(e.args[-1], st.env["__entry__"]["obj"]) is not False for e in co)
+
+    def coerce_typeerror_leaves_as_typeerror(E, st, exc):
+        co = [e for e in st.trace if e.name == "self.coerce"]
+        if not co or not co[-1].raised:
+            return True
+        return exc.cls == "TypeError"
+
+    c = contract()
+    c.callees = dict(c.callees)
+    c.callees["self.coerce"] = {"kind": "effect", "may_raise": True, "raises": "TypeError"}
+    c.ensures = [
+        ("plain-value-stored-only-as-returned-by-coerce", "property:C20", stored_value_is_the_coerced_value),
+        ("coerce-called-at-most-once-on-the-given-object", "property:C20", exactly_one_coercion),
+    ]
+    c.raises = [("uncoercible-value-rejected-with-TypeError", "property:C20", coerce_typeerror_leaves_as_typeerror)]
+    c.trusted = [
+        "is_lazy / isinstance are pure predicates of the object",
+        "TypeParser.coerce is an opaque callee here (returns any value or raises TypeError): that its RESULT conforms to the declared type is the bounded part of C20",
+    ]
+    return c
